@@ -101,6 +101,8 @@ def solver_defaults_rule(cx):
           '(circle far from the origin, pose with a large lever arm)', found='; '.join(bad) or f'{len(sites)} minimize sites')
 
 def run(cx):
+    from rules.C17 import try_from_stores_input
+    try_from_stores_input(cx)
     solver_defaults_rule(cx)
     b = cx.fn('func1::polynomial::Polynomial::least_squares')
     if b:
